@@ -2,40 +2,26 @@
    A plain association-list map decides every answer; the printed form must list exactly the live
    keys in strictly ascending order (w.r.t. the order trait of the case) and every non-nil finger of a
    printed node must point to a strictly larger live key.  Independent of Skiplist/Model.v and of
-   the node heights.  No proofs here. *)
+   the node heights (Skiplist/Spec.v holds only the history type and the association-list map).  No proofs here. *)
 From Coq Require Import List ZArith NArith Bool.
-From Golem Require Export Base.CheckLib.
+From Golem Require Export Base.CheckLib Skiplist.Spec.
 Import ListNotations.
 Open Scope Z_scope.
 
-(* an operation as issued by the harness; [ht] = number of fingers the new node was seen to have
-   (0 when Put found the key, or the node is not in the print) - not used by the oracle *)
-Inductive cop := CPut (k v : Z) (ht : nat) | CGet (k : Z) | CRemove (k : Z).
+(* an operation as issued by the harness is an [op] of Skiplist/Spec.v; its [ht] = number of fingers the new node
+   was seen to have (0 when Put found the key, or the node is not in the print) - not used by the oracle *)
 
 (* what was observed after one operation: its answer (Put: 0), Get of every key of the universe,
    the parsed String(): (key, finger keys / None for nil) per line, head first *)
 Record obs := mkO { ans : Z; gets : list Z; pr : list (Z * list (option Z)) }.
 
 (* order: 0 = the natural order of Z, otherwise reversed;  levels = fingers of the head as printed by the empty list *)
-Record case := mk { order : N; levels : nat; universe : list Z; steps : list (cop * obs) }.
+Record case := mk { order : N; levels : nat; universe : list Z; steps : list (op * obs) }.
 
 Definition cmpo (o : N) (a b : Z) : comparison := match o with 0%N => Z.compare a b | _ => Z.compare b a end.
 Definition lto (o : N) (a b : Z) : bool := match cmpo o a b with Lt => true | _ => false end.
 
-(* the ordinary map *)
-Definition amap := list (Z * Z).
-Fixpoint alookup (k : Z) (m : amap) : Z :=
-  match m with [] => 0 | (k', v) :: r => if Z.eqb k k' then v else alookup k r end.
-Definition amem (k : Z) (m : amap) : bool := existsb (fun p => Z.eqb k (fst p)) m.
-Definition aremove (k : Z) (m : amap) : amap := filter (fun p => negb (Z.eqb k (fst p))) m.
-Definition aput (k v : Z) (m : amap) : amap := (k, v) :: aremove k m.
-
-Definition astep (m : amap) (o : cop) : amap * Z :=
-  match o with
-  | CPut k v _ => (aput k v m, 0)
-  | CGet k => (m, alookup k m)
-  | CRemove k => (aremove k m, alookup k m)
-  end.
+(* the ordinary map: amap, alookup, amem, aput, aremove, astep of Skiplist/Spec.v *)
 
 Fixpoint ascending (o : N) (l : list Z) : bool :=
   match l with
@@ -63,7 +49,7 @@ Definition print_ok (o : N) (m : amap) (p : list (Z * list (option Z))) : bool :
       && forallb (fingers_ok o keys) body
   end.
 
-Fixpoint steps_ok (o : N) (univ : list Z) (m : amap) (l : list (cop * obs)) : bool :=
+Fixpoint steps_ok (o : N) (univ : list Z) (m : amap) (l : list (op * obs)) : bool :=
   match l with
   | [] => true
   | (c, ob) :: r =>
@@ -78,9 +64,9 @@ Definition oracle (c : case) : bool := steps_ok (order c) (universe c) [] (steps
 
 Definition violations (cs : list case) : list N := idx_where (fun c => negb (oracle c)) 0%N cs.
 
-Definition is_put (s : cop * obs) : bool := match fst s with CPut _ _ _ => true | _ => false end.
-Definition is_remove (s : cop * obs) : bool := match fst s with CRemove _ => true | _ => false end.
-Definition ht_of (s : cop * obs) : nat := match fst s with CPut _ _ h => h | _ => O end.
+Definition is_put (s : op * obs) : bool := match fst s with Put _ _ _ => true | _ => false end.
+Definition is_remove (s : op * obs) : bool := match fst s with Remove _ => true | _ => false end.
+Definition ht_of (s : op * obs) : nat := match fst s with Put _ _ h => h | _ => O end.
 (* (cases, operations, puts, removes, reversed-order cases, largest height seen) *)
 Definition digest (cs : list case) : list N :=
   let all := flat_map steps cs in
